@@ -86,7 +86,7 @@ def build(mpc, formats=None):
                 x, y = v
                 if abs(x - y) <= 16 * u * max(abs(x), abs(y)):
                     return None
-                return ('exact', Fr(int(fn(x, y))))
+                return ('exact', Fr(int(fn(x, y))), None, v)
             return ref
 
         def op(name, arity, fn, ref, kind=compare, fmt=fmt, make=make, dom=dom, mpd=mpd):
@@ -109,7 +109,7 @@ def build(mpc, formats=None):
         op('rdiv_pub', 1, lambda a: 1 / a, rel(lambda x: 1 / x, lambda ex, x: abs(ex)))
         for cname, cf in (('lt', lambda a, b: a < b), ('le', lambda a, b: a <= b), ('eq', lambda a, b: a == b),
                           ('ge', lambda a, b: a >= b), ('gt', lambda a, b: a > b), ('ne', lambda a, b: a != b)):
-            op(cname, 2, cf, cmp_ref(cf))
+            op(cname, 2, cf, cmp_ref(cf), compare_cmp)
     return ops
 
 
@@ -122,6 +122,17 @@ def compare(got, want):
     if kind == 'within':
         return abs(Fr(got) - want[1]) <= want[2]
     return False
+
+
+def compare_cmp(got, want):
+    """Comparisons are computed from x - y: the zero-operand region of + / - (see compare_add) applies to them too."""
+    if Fr(got) == want[1]:
+        return True
+    v = want[3]
+    others = [a for a in v if a != 0]
+    if any(a == 0 for a in v) and others and all(abs(a) < Fr(1, 2) for a in others) and Fr(got) in (0, 1):
+        return '!add:zero-operand-negative-exponent'
+    return 'wrong'
 
 
 def compare_add(got, want):
